@@ -197,6 +197,7 @@ def run(ck, supports_table=None):
             ck.disagreement("a window over a relation literal without rows does not run to an empty result: %s: %s" % (c["src"], json.dumps(x)[:200]),
                             {"src": c["src"], "sql": sql, "sqlite": x}, lambda _c: None)
     ck.coverage["frame_corr_exhaustive"] = {"argument_sets": len(args), "cases": len(cases), "empty_input_cases": len(extra)}
+    return [c["src"] for c in cases]
 
 
 # ------------------------------------------------------------------ partition / frame scoping (flatten.rs)
@@ -417,3 +418,4 @@ def run_scope(ck):
             ck.disagreement("OVER clauses of a nested group / window program differ from the scoping model: %s: impl %r (%s), model %r" % (c["src"], sorted(gsql.items()), json.dumps(a)[:300], sorted(wsql.items())),
                             {"src": c["src"], "impl": a, "model": sorted(wsql.items())}, lambda _c: None)
     ck.coverage["scope_corr"] = {"cases": len(cases), "directed": len(SCOPE_DIRECTED)}
+    return [c["src"] for c in cases]
